@@ -1,4 +1,5 @@
 import CedarVerif.Lemmas.LevelSound
+import CedarVerif.Lemmas.LevelBridge
 import CedarVerif.Lemmas.TypecheckDefs
 import CedarVerif.Thm.C01
 /-
@@ -16,6 +17,10 @@ PROVED for the WHOLE mirrored checker (every expression form):
   * `level_sound_partial` — for a typed expression `te` whose kind annotations agree with the run-time values (`Kinds`),
     in the environment of the request's action: no level errors at level n ⇒ `te` evaluates over `atLevel n req store`
     exactly as over `store`;
+  * `level_sound_fragment` — for the connective-free part of C03's proved fragment (`.`/`has` chains through entities
+    and records, literals, variables, `!`, `-`, `+ - *`, `==`, `like`, `is`) the hypothesis `Kinds` is DERIVED from typechecker
+    acceptance + conformance (C03 `typeOf_sound_aux`), and the typed AST is the expression itself: the statement is
+    about `evaluate e` with no semantic hypothesis left;
   * `level_sound_authorization` — lifted to `isAuthorized` (same response, hence — with C01's characterisations — the same
     decision, determining policies and erroring policies) for policy sets whose typed ASTs are level-n accepted.
 FULL STATEMENT: `level_sound` (a `def … : Prop`): the same conclusion from *typechecker acceptance and conformance* of
@@ -173,6 +178,21 @@ theorem level_sound_sets (n : Nat) (req : Request) (es : Entities) (ps : List Po
   intro id
   rw [← C01.errors_exact, ← C01.errors_exact, e]
 
+/-- C16 (`level_sound` from typechecker acceptance and conformance, FRAGMENT): for the connective-free part `CF` of
+C03's proved fragment (literals, variables, `.`/`has` chains through entities and records, `!`, unary `-`, `+ - *`, `==`,
+`like`, `is`) the semantic hypotheses are discharged by typechecker soundness: if the typechecker model types the
+expression in the environment of a conformant request, the store conforms, and the level checker accepts the typed AST
+at level `n`, then the *expression itself* evaluates over the level-`n` slice as over the store. -/
+theorem level_sound_fragment (n : Nat) (m : ValidationMode) (s : Schema) (env : RequestEnv) (w : World)
+    (hWF : SchemaWF s) (henv : EnvMatches s env w.q) (hreq : ConformsRequest s w.q) (hst : StoreConforms s w.es)
+    (e : Expr) (hf : CF e = true) (te : TExpr) (ha : annotate m s env e [] = .ok te)
+    (hc : checkLevel n env.action te = true) :
+    evaluate w.q (atLevel n w.q w.es) w.sl e = evaluate w.q w.es w.sl e := by
+  have hk := kinds_annotate hWF henv hreq hst [] (capsHold_nil w) e te hf ha
+  have h := level_sound_partial w.q w.es w.sl n env.action henv.2.1.symm te hk hc
+  rw [erase_annotate m s env [] e te hf ha] at h
+  exact h
+
 /-- FULL STATEMENT of C16's soundness half.  For a resolved schema, a policy set every member of which is accepted by
 the (strict) typechecker model and by the level checker at maximum level `n` in every request environment, a request
 and a store that conform to the schema: authorization over the level-`n` slice equals authorization over the store. -/
@@ -219,6 +239,10 @@ def exEnv : RequestEnv :=
 /-- `principal.next.flag` -/
 def exCond : Expr := .getAttr (.getAttr (.var .principal) "next") "flag"
 example : annotate .strict exSchema exEnv exCond [] = .ok (chainFlag 1) := by rfl
+/-- the syntactic hypotheses of `level_sound_fragment` on this input (its remaining hypotheses are C03's: a well-formed
+schema, a conformant request and store) -/
+example : CF exCond = true ∧ annotate .strict exSchema exEnv exCond [] = .ok (chainFlag 1) ∧
+    checkLevel 2 exEnv.action (chainFlag 1) = true := ⟨by decide, by rfl, by decide⟩
 example : levelPolicy 2 .strict exSchema .absent .absent exCond = some [] := by decide +kernel
 example : levelPolicy 1 .strict exSchema .absent .absent exCond = some [.maxExceeded 2] := by decide +kernel
 /-- the typechecker's short circuit removes `principal.flag` from `true || principal.flag`: level 0 suffices -/
